@@ -10,7 +10,7 @@ Subset (anything else raises Untranslatable -> the tie is reported broken):
   * function bodies made of: docstring, simple / tuple-unpacking assignments, one final return.
 Every emitted definition carries source file, line span and sha256 of the translated segment.
 """
-import ast, hashlib, os, textwrap
+import ast, hashlib, os, re, textwrap
 
 COQ_KEYWORDS = {'end', 'at', 'as', 'in', 'if', 'then', 'else', 'let', 'fun', 'match', 'with',
                 'return', 'for', 'where', 'Type', 'Prop', 'Set', 'fix', 'cofix', 'forall',
@@ -288,7 +288,7 @@ def find_nodes(fn, kind, contains):
 
 
 def translate_inline_test(path, qualname, contains, env, coqname, params, bool_env=(), repo_rel=None,
-                          which='test'):
+                          which='test', must_use=(), body_is=None):
     """Translate the test of the unique `if` (or the value of the unique assignment / return) inside
     function `qualname` whose source contains all substrings in `contains`.  `env` maps unparsed python
     sub-expressions to Coq parameter names; `params` is the Coq binder string."""
@@ -305,6 +305,18 @@ def translate_inline_test(path, qualname, contains, env, coqname, params, bool_e
     tr.bool_env = set(bool_env)
     expr = n.test if which in ('test', 'ifexp') else n.value
     body = tr.b(expr) if which in ('test', 'ifexp') else tr.any(expr)
+    # the located node must play the role the model gives it: it has to mention every listed parameter, and (for an
+    # `if`) its body has to be exactly the listed statement - otherwise a different `if` that happens to contain the
+    # search strings would be translated into a definition that means something else
+    for name in must_use:
+        if not re.search(r'(?<![A-Za-z0-9_\'])%s(?![A-Za-z0-9_\'])' % re.escape(name), body):
+            raise Untranslatable('%s: the %s containing %r does not use %s (not the shape the model expects)'
+                                 % (qualname, which, contains, name))
+    if body_is is not None and which == 'test':
+        got = [ast.unparse(st) for st in n.body] + (['else:'] + [ast.unparse(st) for st in n.orelse] if n.orelse else [])
+        if got != list(body_is):
+            raise Untranslatable('%s: the body of the `if` containing %r is %r, expected %r'
+                                 % (qualname, contains, got, list(body_is)))
     seg = ast.get_source_segment(src, expr)
     sha = hashlib.sha256(seg.encode()).hexdigest()
     rel = repo_rel or path
